@@ -603,3 +603,164 @@ func loadWriteKeyAgreement(r *core.Run, rule string, hs []*core.Handler, rekey m
 	}
 	return nLW
 }
+
+// wasmDoorValidated: every wasm-binding call site of handler `key` lies behind ErrNil(msg.ValidateBasic()) — the
+// contract entry is the only door that does not pass the ante handler's stateless validation.
+func wasmDoorValidated(r *core.Run, rule string, hs []*core.Handler, key string) {
+	p := r.Prog
+	h := core.HandlerByKey(hs, key)
+	if h == nil {
+		r.Undecided(rule, "wasm:"+key+":anchor-missing", "", "handler missing")
+		return
+	}
+	for _, fn := range p.Funcs {
+		if !strings.HasPrefix(core.RelPkg(core.FnPkgPath(fn)), "wasmbinding") {
+			continue
+		}
+		allInstrs(fn, func(in ssa.Instruction) {
+			call, ok := in.(ssa.CallInstruction)
+			if !ok {
+				return
+			}
+			hit := false
+			for _, cal := range p.Callees(call) {
+				if cal == h.Fn {
+					hit = true
+				}
+			}
+			if !hit {
+				return
+			}
+			r.Analysed(core.FnName(fn))
+			g := errNilGuard(p, func(c *ssa.Call) bool { return strings.HasSuffix(core.CalleeFullName(c), ".ValidateBasic") })
+			u := p.FindUnguarded(fn, []*core.Effect{{Instr: call}}, g, true)
+			r.Check(len(u) == 0, rule, "wasm:"+key+":validate-basic", p.InstrPos(call), "the contract entry calls the handler only behind ErrNil(ValidateBasic)", "the wasm binding reaches the handler without stateless validation: the size checks of ValidateBasic (positive, non-overflowing) do not apply to messages sent by contracts")
+		})
+	}
+}
+
+// productOverflowGuarded: validator fn rejects f1*f2 overflowing int64 by the division form
+// (f1 > C/f2 or f2 > C/f1 leads only to failing returns). A sign test of the wrapped product is not a guard.
+func productOverflowGuarded(p *core.Program, fn *ssa.Function, f1, f2 string) bool {
+	rets := p.Returns(fn)
+	isField := func(v ssa.Value, at ssa.Instruction, f string) bool {
+		as := p.ProvAt(v, "", at).DataAtoms()
+		return len(as) == 1 && as[0].Kind == "param" && as[0].Idx == 0 && as[0].Path == "."+f
+	}
+	for _, b := range fn.Blocks {
+		ifi, ok := b.Instrs[len(b.Instrs)-1].(*ssa.If)
+		if !ok {
+			continue
+		}
+		ca := p.NormCond(ifi)
+		if ca.Kind != "cmp" {
+			continue
+		}
+		for succ := 0; succ < 2; succ++ {
+			truth := !ca.Neg
+			if succ == 1 {
+				truth = ca.Neg
+			}
+			op := ca.Op
+			if !truth {
+				op = negate(op)
+			}
+			x, y := ca.X, ca.Y
+			if _, isQ := x.(*ssa.BinOp); isQ {
+				x, y, op = y, x, flip(op)
+			}
+			q, ok := y.(*ssa.BinOp)
+			if !ok || q.Op != token.QUO || (op != token.GTR && op != token.GEQ) {
+				continue
+			}
+			c, isC := q.X.(*ssa.Const)
+			if !isC || c.Value == nil || c.Int64() < 1<<62 {
+				continue
+			}
+			if !((isField(x, ifi, f1) && isField(q.Y, ifi, f2)) || (isField(x, ifi, f2) && isField(q.Y, ifi, f1))) {
+				continue
+			}
+			// that successor leads only to failing returns
+			s := b.Succs[succ]
+			onlyFail, any := true, false
+			for _, ri := range rets {
+				if ri.Ret.Block() == s || core.PathExists(fn, nil, s.Instrs[0], ri.Ret) {
+					any = true
+					if ri.Class != core.RetFail {
+						onlyFail = false
+					}
+				}
+			}
+			if any && onlyFail {
+				return true
+			}
+		}
+	}
+	return false
+}
+
+// absentCheckKeyAgreement: where a record is written only behind Found(getter)=false, the key whose absence was
+// tested is the key written (term equality). Returns the number of create-if-absent pairs.
+func absentCheckKeyAgreement(r *core.Run, rule string, hs []*core.Handler) int {
+	p := r.Prog
+	nAbs := 0
+	for _, h := range hs {
+		for _, fn := range p.Summary(h.Fn).Funcs {
+			type site struct {
+				call   ssa.CallInstruction
+				callee *ssa.Function
+				op     *core.StoreOp
+			}
+			var getters, setters []site
+			allInstrs(fn, func(in ssa.Instruction) {
+				call, ok := in.(ssa.CallInstruction)
+				if !ok {
+					return
+				}
+				for _, cal := range p.Callees(call) {
+					if gi := p.StoreGetter(cal); gi != nil && gi.Found {
+						for _, o := range p.StoreOps(cal) {
+							if o.Kind == "Get" {
+								getters = append(getters, site{call, cal, o})
+							}
+						}
+					}
+					for _, o := range p.StoreOps(cal) {
+						if o.Kind == "Set" {
+							setters = append(setters, site{call, cal, o})
+						}
+					}
+				}
+			})
+			for _, g := range getters {
+				name := g.op.Module + "/" + g.op.Prefix
+				for _, st := range setters {
+					if st.op.Module+"/"+st.op.Prefix != name {
+						continue
+					}
+					// is the write behind Found(this getter)=false ?
+					gcall := g.call
+					notFound := func(ca *core.CondAtom, truth bool) bool {
+						return ca.Kind == "found" && !truth && ca.Call != nil && ssa.CallInstruction(ca.Call) == gcall
+					}
+					if core.PathExists(fn, p.PassEdges(fn, notFound), st.call, nil) {
+						continue // not a create-if-absent pair
+					}
+					nAbs++
+					gt := keyTermsAtCall(p, g.call, g.callee, g.op)
+					wt := keyTermsAtCall(p, st.call, st.callee, st.op)
+					same := len(gt) == len(wt)
+					for i := 0; same && i < len(gt); i++ {
+						if gt[i] != wt[i] || strings.HasPrefix(gt[i], "?") {
+							same = false
+						}
+					}
+					r.Check(same, rule, fmt.Sprintf("%s:absent-check-key=written-key:%s", h.Key(), name), p.InstrPos(st.call),
+						"the key tested for absence is the key written: "+strings.Join(wt, " / "),
+						fmt.Sprintf("a record is created behind 'not found' for key %v but written under key %v: an existing record of another account can be overwritten", gt, wt))
+				}
+			}
+		}
+	}
+	return nAbs
+}
